@@ -148,10 +148,10 @@ def beginEv (st : St) (genCfg specCfg : Cfg) (evOf : Cfg → Ev S) : St :=
   let eM := evOf genCfg
   let r := step Parse.ipVersion (Parse.skipHdr genCfg) st.tracker eM
   let st := if eM.wf then st else st.bad "ill-formed message (harness): _udn differs from the USN's udn / NTS missing"
-  let gap := match eM, Parse.textReading (evOf specCfg) with
+  let gap := match eM, evOf specCfg with
     | .msg m, .msg mj => m.sighting?.isSome && mj.sighting?.isNone
     | _, _ => false
-  { st with before := st.tracker, tracker := r.1, notif := r.2, evJ := some (Parse.textReading (evOf specCfg)), cur := {}, curGap := gap }
+  { st with before := st.tracker, tracker := r.1, notif := r.2, evJ := some (evOf specCfg), cur := {}, curGap := gap }
 
 def stepLine (genCfg specCfg : Cfg) (st : St) (toks : List String) : St :=
   match toks with
@@ -171,7 +171,7 @@ def stepLine (genCfg specCfg : Cfg) (st : St) (toks : List String) : St :=
     (match pairList st.tbl (if rest.isEmpty then "~" else ",".intercalate rest) with
      | some pairs =>
        let st := beginEv st genCfg specCfg fun _ => .noise (ts.toInt?.getD 0)
-       { st with evJ := some (Parse.textReading (Parse.parseEv specCfg (sock == "A") pairs)) }
+       { st with evJ := some (Parse.parseEv specCfg (sock == "A") pairs) }
      | none => st.bad "bad lost line")
   | ["drop", ts] => beginEv st genCfg specCfg fun _ => .noise (ts.toInt?.getD 0)
   | ["purge", ts] => beginEv st genCfg specCfg fun _ => .purge (ts.toInt?.getD 0)
